@@ -50,6 +50,7 @@ pub fn lookup(scen: &str) -> Option<Scenario> {
         "c16" => scen_c16::run,
         "rawrt" => scen_c16::run_raw,
         "c09big" => scen_rt::run_c09_big,
+        "rtsweep" => scen_rt::run_short_sweep,
         "c16sweep" => scen_c16::run_sweeps,
         "c08" => scen_wr::run_c08,
         "c15" => scen_wr::run_c15,
